@@ -79,6 +79,9 @@ pub struct Job {
 	pub sim: String,
 	pub profile: String,
 	pub runs: u64,
+	/// worker executable for sims that live in another cargo workspace (None = this binary)
+	#[serde(default)]
+	pub exe: Option<String>,
 }
 
 /// Everything that defines one registered check (`./check C07 quick`).
@@ -226,6 +229,7 @@ fn run_job(exe: &str, job: &Job, tier: Tier, seed: u64, agg: &mut Agg) {
 	let nw = worker_count().min(job.runs.max(1));
 	let t0 = Instant::now();
 	let mut children = Vec::new();
+	let exe: &str = job.exe.as_deref().unwrap_or(exe);
 	for w in 0..nw {
 		let child = Command::new(exe)
 			.arg("worker")
@@ -382,7 +386,17 @@ pub fn run_check(
 			"replay": o.replay.clone().unwrap_or(Value::Null),
 			"minimised": false,
 		});
-		if let (Some(rep), Some(sim)) = (o.replay.as_ref(), lookup(&sim_name)) {
+		let external_exe = plan.jobs.iter().find(|j| j.sim == sim_name).and_then(|j| j.exe.clone());
+		if let (Some(_), Some(xe)) = (o.replay.as_ref(), external_exe.as_ref()) {
+			// the simulation lives in another binary: let it minimise the file in place
+			std::fs::write(&path, serde_json::to_string_pretty(&file).unwrap()).expect("write replay");
+			let _ = Command::new(xe).arg("shrinkfile").arg(&path).output();
+			if let Ok(sf) = std::fs::read_to_string(&path) {
+				if let Ok(v) = serde_json::from_str::<Value>(&sf) {
+					file = v;
+				}
+			}
+		} else if let (Some(rep), Some(sim)) = (o.replay.as_ref(), lookup(&sim_name)) {
 			let budget = Duration::from_secs(
 				std::env::var("VERIF_SHRINK_SECS").ok().and_then(|s| s.parse().ok()).unwrap_or(90),
 			);
@@ -406,7 +420,8 @@ pub fn run_check(
 		}
 		std::fs::write(&path, serde_json::to_string_pretty(&file).unwrap()).expect("write replay");
 		// Confirm in a fresh process that the file reproduces the violation.
-		let confirm = Command::new(&exe).arg("replay").arg(&path).output();
+		let confirm_exe = external_exe.clone().unwrap_or_else(|| exe.clone());
+		let confirm = Command::new(&confirm_exe).arg("replay").arg(&path).output();
 		let confirmed = match confirm {
 			Ok(out) => {
 				out.status.code() == Some(1)
@@ -591,4 +606,68 @@ pub fn replay_main(path: &str, lookup: &dyn Fn(&str) -> Option<Box<dyn Sim>>) ->
 		}
 	}
 	code
+}
+
+
+/// `shrinkfile <path>`: minimise a replay file in place (used for sims in other workspaces).
+pub fn shrinkfile_main(path: &str, lookup: &dyn Fn(&str) -> Option<Box<dyn Sim>>) -> i32 {
+	install_panic_hook();
+	let s = match std::fs::read_to_string(path) {
+		Ok(s) => s,
+		Err(_) => return 2,
+	};
+	let mut file: Value = match serde_json::from_str(&s) {
+		Ok(v) => v,
+		Err(_) => return 2,
+	};
+	let rep = file["replay"].clone();
+	let sim_name = rep.get("sim").and_then(|s| s.as_str()).unwrap_or("").to_string();
+	let sim = match lookup(&sim_name) {
+		Some(s) => s,
+		None => return 2,
+	};
+	let property = file["property"].as_str().unwrap_or("").to_string();
+	let oracle = file["oracle"].as_str().unwrap_or("").to_string();
+	let budget = Duration::from_secs(
+		std::env::var("VERIF_SHRINK_SECS").ok().and_then(|s| s.parse().ok()).unwrap_or(90),
+	);
+	let orig_len = rep.get("trace").and_then(|t| t.as_array()).map(|a| a.len()).unwrap_or(0);
+	let (min, spent) = shrink(sim.as_ref(), &rep, &property, &oracle, budget);
+	let min_len = min.get("trace").and_then(|t| t.as_array()).map(|a| a.len()).unwrap_or(0);
+	let out = run_isolated(|| sim.replay(&min));
+	if let Some(v2) = out.violations.iter().find(|x| x.property == property && x.oracle == oracle) {
+		file["replay"] = min;
+		file["message"] = json!(v2.message);
+		file["step"] = json!(v2.step);
+		file["minimised"] = json!(true);
+		file["shrink"] = json!({"original_actions": orig_len, "minimised_actions": min_len, "replays_spent": spent});
+		let _ = std::fs::write(path, serde_json::to_string_pretty(&file).unwrap());
+	}
+	0
+}
+
+/// Entry point for a worker binary of another workspace: handles `worker`, `replay`, `shrinkfile`.
+pub fn serve_main(args: &[String], lookup: &dyn Fn(&str) -> Option<Box<dyn Sim>>) -> i32 {
+	match args.get(1).map(|s| s.as_str()) {
+		Some("worker") => {
+			let sim = match lookup(&args[2]) {
+				Some(s) => s,
+				None => return 2,
+			};
+			let tier = Tier::parse(&args[4]).unwrap_or(Tier::Quick);
+			worker_main(
+				sim.as_ref(),
+				&args[3],
+				tier,
+				args[5].parse().unwrap(),
+				args[6].parse().unwrap(),
+				args[7].parse().unwrap(),
+				args[8].parse().unwrap(),
+			);
+			0
+		},
+		Some("replay") => replay_main(&args[2], lookup),
+		Some("shrinkfile") => shrinkfile_main(&args[2], lookup),
+		_ => 2,
+	}
 }
